@@ -77,6 +77,9 @@ func vpRunOne(fn func(), vals []uint64) (status, detail string) {
 	vpObsOut = nil
 	vpBlobCount = 0
 	vpFirstFail = ""
+	if vpOnReset != nil {
+		vpOnReset()
+	}
 	defer func() {
 		r := recover()
 		switch r := r.(type) {
